@@ -27,6 +27,9 @@ pub struct Case {
     /// the public key object holds the point at infinity written (t^2 : t^3 : 0) with this t (hex); `pk` is then unused
     #[serde(default)]
     pub inf: Option<String>,
+    /// the public key object holds these raw coordinates, which are NOT on the curve, with this Z (hex x, y, z); `pk` is unused
+    #[serde(default)]
+    pub raw: Option<[String; 3]>,
 }
 
 pub fn eval(ctx: &Ctx, c: &Case) {
@@ -36,7 +39,18 @@ pub fn eval(ctx: &Ctx, c: &Case) {
     let msg = hex::decode(&c.msg).unwrap();
     let sig = hex::decode(&c.sig).unwrap();
     let id_bytes = c.id.as_ref().map(|s| s.as_bytes().to_vec()).unwrap_or_else(|| sm2::DEFAULT_ID.to_vec());
-    let (pk, accept) = if let Some(t) = &c.inf {
+    let (pk, accept) = if let Some([x, y, z]) = &c.raw {
+        // a key object whose coordinates satisfy no curve equation is no public key: nothing verifies under it
+        let p = &sm2::params().p;
+        let (x, y, z) = (hb(x), hb(y), hb(z));
+        let (z2, z3) = ((&z * &z) % p, (&z * &z * &z) % p);
+        let pt = gm_sm2::p256_ecc::Point { x: to_mont(&((&x * &z2) % p)), y: to_mont(&((&y * &z3) % p)), z: to_mont(&z) };
+        if sm2::on_curve(&Some((x, y))) {
+            ctx.machinery_error("raw key object is on the curve");
+            return;
+        }
+        (gm_sm2::key::Sm2PublicKey { point: pt }, false)
+    } else if let Some(t) = &c.inf {
         // the point at infinity is no public key (GB/T 32918.1 6.2.1 a): nothing verifies under it
         let p = &sm2::params().p;
         let t = hb(t);
@@ -82,7 +96,7 @@ pub fn run(ctx: &Arc<Ctx>) {
     refmodels::selftest::run(&["sm3", "sm2"]).unwrap_or_else(|e| ctx.machinery_error(format!("reference self-test failed: {}", e)));
     let n = sm2::params().n.clone();
     let p = sm2::params().p.clone();
-    ctx.set_rule("for each base signature (quick 12, thorough 60: keys x nonces x IDs x messages from the C03 alphabets, made by the reference signer): all 512 single-bit flips of r||s; r,s substituted by {0,1,n-1,n,n+1,2^256-1}, s=n-r, swapped; (r+delta, s') completed with the private key so that the verification point is unchanged, delta in {+-1, +-(p-n), +-(2^256-n), +-(2^256-p)}; the public key held as a Jacobian key object (Z in {2, p-1, seeded}); message bit flipped / byte appended / truncated, or replaced by the intermediate values e = SM3(Z_A||M), Z_A||M, Z_A, SM3(M) (also on messages of 2^16+5 bytes and 4 MiB+17 bytes, changed at the end, in the middle and after the first block); ID changed (also to normalisation-equivalent spellings: trailing / leading white space, line end, NUL, case; and to IDs longer than 8191 bytes sharing the signer's prefix); key replaced by another key and by -P; every signature length 0..=130 as prefix/extension and constant fills, and lengths 64 + 256k, 64 + 65536 with neighbours; plus the product RxS of a 12-element boundary alphabet; pre-searched messages whose digest e is >= n; pre-searched signatures with r or s below 2^224 and their r+n / s+n aliases. Oracle: the reference verifier (and 'exactly 64 bytes'); library must return Err whenever it rejects — never Ok, never a panic — and Ok when it accepts.");
+    ctx.set_rule("for each base signature (quick 12, thorough 60: keys x nonces x IDs x messages from the C03 alphabets, made by the reference signer): all 512 single-bit flips of r||s; r,s substituted by {0,1,n-1,n,n+1,2^256-1}, s=n-r, swapped; (r+delta, s') completed with the private key so that the verification point is unchanged, delta in {+-1, +-(p-n), +-(2^256-n), +-(2^256-p)}; the public key held as a Jacobian key object (Z in {2, p-1, seeded}); message bit flipped / byte appended / truncated, or replaced by the intermediate values e = SM3(Z_A||M), Z_A||M, Z_A, SM3(M) (also on messages of 2^16+5 bytes and 4 MiB+17 bytes, changed at the end, in the middle and after the first block); ID changed (also to normalisation-equivalent spellings: trailing / leading white space, line end, NUL, case; and to IDs longer than 8191 bytes sharing the signer's prefix); key replaced by another key and by -P; every signature length 0..=130 as prefix/extension and constant fills, and lengths 64 + 256k, 64 + 65536 with neighbours; plus the product RxS of a 12-element boundary alphabet; pre-searched messages whose digest e is >= n; key objects that hold the point at infinity or a point off the curve (affine and Jacobian), with signatures forged for the verification point [s]G; pre-searched signatures with r or s below 2^224 and their r+n / s+n aliases. Oracle: the reference verifier (and 'exactly 64 bytes'); library must return Err whenever it rejects — never Ok, never a panic — and Ok when it accepts.");
     let ds = scalar_alphabet(&n, ctx.seed, "c04d", 2);
     let ks = scalar_alphabet(&n, ctx.seed, "c04k", 1);
     let nbase = ctx.tier.pick(12usize, 160);
@@ -106,7 +120,7 @@ pub fn run(ctx: &Arc<Ctx>) {
             None => sm2::sign_with_k(d, &e, &(k + 1u32)).expect("base signature"),
         };
         let pkh = hex::encode(sm2::encode_point(&pk, false));
-        let mk = |sig: String, msg: &[u8], id: &Option<String>, pkh: &str, label: &str| Case { pk: pkh.to_string(), id: id.clone(), msg: hex::encode(msg), sig, label: label.to_string(), lambda: None, inf: None };
+        let mk = |sig: String, msg: &[u8], id: &Option<String>, pkh: &str, label: &str| Case { pk: pkh.to_string(), id: id.clone(), msg: hex::encode(msg), sig, label: label.to_string(), lambda: None, inf: None, raw: None };
         let valid = sig_bytes(&r, &s);
         cases.push(mk(valid.clone(), &msg, &id, &pkh, "valid"));
         // the same point held as a Jacobian key object (Z = 2, p - 1, seeded): valid accepted, altered refused
@@ -291,7 +305,7 @@ pub fn run(ctx: &Arc<Ctx>) {
         let (pkh, msg) = (e["pub"].as_str().unwrap().to_string(), hex::decode(e["msg"].as_str().unwrap()).unwrap());
         let (r, s) = (hb(e["r"].as_str().unwrap()), hb(e["s"].as_str().unwrap()));
         let kind = e["kind"].as_str().unwrap();
-        let mk = |sig: String, label: &str| Case { pk: pkh.clone(), id: None, msg: hex::encode(&msg), sig, label: label.to_string(), lambda: None, inf: None };
+        let mk = |sig: String, label: &str| Case { pk: pkh.clone(), id: None, msg: hex::encode(&msg), sig, label: label.to_string(), lambda: None, inf: None, raw: None };
         cases.push(mk(sig_bytes(&r, &s), "valid"));
         if r < two224 {
             cases.push(mk(sig_bytes(&(&r + &n), &s), "r+n-alias"));
@@ -312,7 +326,7 @@ pub fn run(ctx: &Arc<Ctx>) {
         let e = sm2::digest_e(sm2::DEFAULT_ID, &pk, &msg);
         if let Some((r, s)) = sm2::sign_with_k(d, &e, &ks[3].1) {
             let pkh = hex::encode(sm2::encode_point(&pk, false));
-            let mk = |m: &[u8], label: &str| Case { pk: pkh.clone(), id: None, msg: hex::encode(m), sig: sig_bytes(&r, &s), label: label.to_string(), lambda: None, inf: None };
+            let mk = |m: &[u8], label: &str| Case { pk: pkh.clone(), id: None, msg: hex::encode(m), sig: sig_bytes(&r, &s), label: label.to_string(), lambda: None, inf: None, raw: None };
             cases.push(mk(&msg, "valid"));
             for pos in [mlen - 1, mlen / 2, 40usize] {
                 let mut m2 = msg.clone();
@@ -340,7 +354,7 @@ pub fn run(ctx: &Arc<Ctx>) {
             ok += 1;
             let Some((r, s)) = sm2::sign_with_k(&d, &ee, &ks[4].1) else { continue };
             let pkh = hex::encode(sm2::encode_point(&pk, false));
-            let mk = |sig: String, m: &[u8], label: &str| Case { pk: pkh.clone(), id: id.clone(), msg: hex::encode(m), sig, label: label.to_string(), lambda: None, inf: None };
+            let mk = |sig: String, m: &[u8], label: &str| Case { pk: pkh.clone(), id: id.clone(), msg: hex::encode(m), sig, label: label.to_string(), lambda: None, inf: None, raw: None };
             cases.push(mk(sig_bytes(&r, &s), &msg, "valid"));
             // the signature an implementation makes that takes -(e mod n) or the unreduced e wrongly: r shifted by the difference
             for (dn2, delta) in [("-2e", (&n * 2u32 - (&ee % &n) * 2u32) % &n), ("2^256-n", ((BigUint::one() << 256usize) - &n) % &n)] {
@@ -367,7 +381,7 @@ pub fn run(ctx: &Arc<Ctx>) {
             let idb = id.as_ref().map(|s| s.as_bytes().to_vec()).unwrap_or_else(|| sm2::DEFAULT_ID.to_vec());
             let e = sm2::digest_e(&idb, &pk, &msg);
             let (r, s) = sm2::sign_with_k(d, &e, &ks[5].1).expect("sequence signature");
-            items.push(Case { pk: hex::encode(sm2::encode_point(&pk, false)), id: id.clone(), msg: hex::encode(&msg), sig: sig_bytes(&r, &s), label: "valid".into(), lambda: None, inf: None });
+            items.push(Case { pk: hex::encode(sm2::encode_point(&pk, false)), id: id.clone(), msg: hex::encode(&msg), sig: sig_bytes(&r, &s), label: "valid".into(), lambda: None, inf: None, raw: None });
         }
         // the signature of item 0 presented under the ID of item 2 (same key) and under the key of item 1 (same ID)
         let mut cross1 = items[0].clone();
@@ -400,12 +414,40 @@ pub fn run(ctx: &Arc<Ctx>) {
                     if r.is_zero() || ((&r + &sv) % &n).is_zero() {
                         continue;
                     }
-                    cases.push(Case { pk: String::new(), id: None, msg: hex::encode(&msg), sig: sig_bytes(&r, &sv), label: format!("key-object-at-infinity/forged-for-ZA-over-{}", zn), lambda: None, inf: Some(hexbig(&t)) });
+                    cases.push(Case { pk: String::new(), id: None, msg: hex::encode(&msg), sig: sig_bytes(&r, &sv), label: format!("key-object-at-infinity/forged-for-ZA-over-{}", zn), lambda: None, inf: Some(hexbig(&t)), raw: None });
                     count += 1;
                 }
             }
         }
         ctx.cov("forgeries_under_a_key_object_at_infinity", serde_json::json!(count));
+    }
+    // key objects whose point is not on the curve (affine and Jacobian): (1, 0) and (2, 0) double to O under the curve's
+    // formulas, so [t]P is O for even t and a forger needs no key; (x_G, y_G + 1) and (0, 0) for the same treatment
+    {
+        let msg = b"message under no key".to_vec();
+        let idb = sm2::DEFAULT_ID.to_vec();
+        let (gx, gy) = sm2::params().g.clone().unwrap();
+        let mut count = 0;
+        for (x, y) in [(BigUint::one(), BigUint::zero()), (BigUint::from(2u32), BigUint::zero()), (gx.clone(), (&gy + 1u32) % &p), (BigUint::zero(), BigUint::zero())] {
+            if sm2::on_curve(&Some((x.clone(), y.clone()))) {
+                continue;
+            }
+            for z in [BigUint::one(), BigUint::from(2u32), g.nonzero_below(&p)] {
+                let za = sm2::za(&idb, &Some((x.clone(), y.clone())));
+                let e = refmodels::util::from_be(&refmodels::sm3::sm3_cat(&[&za, &msg]));
+                for sv in 1u32..=8 {
+                    let sv = BigUint::from(sv);
+                    let x1 = sm2::g_mul(&sv).unwrap().0;
+                    let r = (&e + &x1) % &n;
+                    if r.is_zero() || ((&r + &sv) % &n).is_zero() {
+                        continue;
+                    }
+                    cases.push(Case { pk: String::new(), id: None, msg: hex::encode(&msg), sig: sig_bytes(&r, &sv), label: format!("key-object-off-the-curve/{}/forged-for-[s]G", if z.is_one() { "affine" } else { "jacobian" }), lambda: None, inf: None, raw: Some([hexbig(&x), hexbig(&y), hexbig(&z)]) });
+                    count += 1;
+                }
+            }
+        }
+        ctx.cov("forgeries_under_a_key_object_off_the_curve", serde_json::json!(count));
     }
     ctx.note_bound(format!("{} base signatures, {} cases", nbase, cases.len()));
     ctx.sample(serde_json::to_value(&cases[1]).unwrap());
